@@ -1,9 +1,90 @@
 """C06 - The RIB's change stream reproduces the RIB: no best/add-path change is missed."""
+import os
+
 import ribcheck
+import riblib
+import vf
 from ribcheck import Cfg, NO_DEFER, NO_LLGR, ALL_OPS
 
 LEVEL = "model_checking"
 INV = ["ViewsMatch", "IdsOK", "KeysOK"]
+
+
+def manager_binding(c, thorough):
+    """The same property one level up: behaviours of Rib.tla through the real TableManager (two shards, import policy, next-hop
+    tracking, soft reset IN), where every change is fanned out to the registered neighbours' channels.  Each neighbour - two
+    addresses that are nobody's session and every source peer's own address, until that peer's session ends - folds what it
+    receives with the two documented consumers; after every operation its view must be the model's."""
+    import C20
+    from riblib import Consumer, ident
+    cfgs = [Cfg("m1", ["p1", "p2"], ["a1", "a2", "b1", "c1"], {"A": [0, 1], "B": [0], "C": [0]}, ["c1", "c2", "c3"], ["n1", "n2"],
+                filt=(False, True), ops=C20.OPS),
+            Cfg("m2", ["p1", "p2", "p3"], ["a1", "b1", "d1"], {"A": [0], "B": [0], "D": [0]}, ["c1", "c4"], ["n1", "n2"],
+                filt=(False, True), ops=C20.OPS)]
+    num, depth = (1200, 40) if thorough else (250, 30)
+    nb, nsteps = 0, 0
+    for cfg in cfgs:
+        walks = riblib.gen_walks(cfg, num, depth, c.seed + 66)
+        if not walks:
+            raise vf.ToolError("RibMC produced no walks")
+        inp = os.path.join(vf.WORK, f"C06.{cfg.name}.fib.in")
+        outp = os.path.join(vf.WORK, f"C06.{cfg.name}.out")
+        exp = []
+        with open(inp, "w") as f:
+            f.write("\n".join(C20.header(cfg)) + "\n")
+            for w in walks:
+                f.write("init\n")
+                exp.append(None)
+                for stp in w:
+                    f.write(C20.op_line(cfg, stp["op"]) + "\n")
+                    exp.append(stp)
+        vf.daemon_test("fib_replay", {"VERIF_IN": inp, "VERIF_OUT": outp}, timeout=2400)
+        got = vf.read_jsonl(outp)
+        if len(got) != len(exp):
+            raise vf.ToolError(f"fib_replay: {len(got)} results for {len(exp)} steps")
+        seen = set()
+        cons, hist, skip = {}, [], False
+        for e, g in zip(exp, got):
+            if e is None:
+                cons, hist, skip = {}, [], False
+                nb += 1
+                continue
+            if skip:
+                continue
+            hist.append(e["op"])
+            nsteps += 1
+            post = e["post"]
+            nhbad = set(post["nhbad"])
+            bad = None
+            for name, items in g["notifs"].items():
+                k = cons.setdefault(name, Consumer())
+                for n in items:
+                    k.feed(n)
+                if name in g["closed"]:
+                    continue          # this neighbour's own session ended: its channel is gone
+                for p in cfg.prefixes:
+                    elig = sorted(ident(x) for x in post["ent"][p] if not x["filt"] and x["nh"] not in nhbad)
+                    best = {ident(x) for x in post["best"][p]}
+                    have = k.best.get(p)
+                    if (have is None) != (not best) or (have is not None and tuple(have) not in best):
+                        bad = ("c06.manager_fold_best", {"neighbour": name, "prefix": p, "consumer": have, "maximal_in_model": sorted(best)})
+                    elif sorted(tuple(v) for v in k.all.get(p, {}).values()) != elig:
+                        bad = ("c06.manager_fold_all", {"neighbour": name, "prefix": p, "consumer": sorted(k.all.get(p, {}).values()),
+                                                        "eligible_in_model": elig})
+                    if bad:
+                        break
+                if bad:
+                    break
+            if bad:
+                skip = True
+                sig = (bad[0], e["op"]["k"])
+                if sig not in seen:
+                    seen.add(sig)
+                    c.violation(bad[0], dict(bad[1], op=e["op"], why="a registered neighbour folding the stream the TableManager fans "
+                                             "out holds something else than the RIB"), {"spec": "Rib", "config": cfg.describe(), "ops": hist})
+    c.cov["parts"]["manager"] = {"behaviours": nb, "steps": nsteps}
+    c.cov["evaluations"] += nsteps
+    c.cov["traces_validated_against_impl"] += nb
 
 
 def main(c):
@@ -20,10 +101,12 @@ def main(c):
     ]
     if thorough:
         design += [
-            Cfg("v2", ["p1", "p2"], ["a1", "a2", "b1"], {"A": [0, 1], "B": [0]}, ["c1", "c3"], ["n1"], filt=(False, True)),
+            Cfg("v2", ["p1", "p2"], ["a1", "a2", "b1"], {"A": [0], "B": [0]}, ["c1", "c3"], ["n1"], filt=(False, True)),
             Cfg("v3", ["p1"], ["a1", "a2", "b1"], {"A": [0, 1], "B": [0]}, ["c1", "c2", "cN"], ["n1", "n2"], filt=(False, True)),
         ]
     ribcheck.run(c, "C06", ("c06.",), design, walks, INV, nwalks=4000 if thorough else 600, depth=50, edge_cfgs=edge)
+    if not os.environ.get("VERIF_REPLAY"):
+        manager_binding(c, thorough)
     c.assumptions += [
         "consumers are the two documented ones: the best-path consumer skips notifications without best_changed, the add-path "
         "consumer those without any_changed and re-reads a path only when it is new or named by replaced_path_id",
